@@ -3,6 +3,9 @@
 import json, os, subprocess
 V = os.path.dirname(os.path.dirname(os.path.abspath(__file__)))
 TEXT = {
+ 'C15': ('equilibrium-residual and history monitor: liquid / solid rows of the real stream recorded after each lle / sle call; activities recomputed from thermo.Gamma; results after call histories (use_cache on/off, temperature up and down) compared with a fresh solver on a fresh stream',
+         'Exploration: seeded LLE mixtures of 2-5 chemicals with a partially miscible pair, three methods, scale factors, every top chemical, histories of 1-4 earlier calls; SLE with three solutes in 0-3 solvents, given and computed solubility.',
+         'Per-method resolution bounds (fixed-point 1e-7, shgo 1e-5 / 5e-3 on activities, differential evolution 2e-2); l/L labels compared up to a swap when no top chemical is named.'),
  'C02': ('energy-ledger monitor: H, S, T, P, C of inlets and receiver recorded around real mix_from(energy_balance=True, Q) and separate_out calls and around H / h / S assignments; balances and read-backs evaluated against solver-derived bounds',
          'Exploration: seeded cases with 1-4 non-empty inlets (single-inlet path separately), liquid and gas, heat input as number or heat object, receiver among the inlets, empty inlets, separate_out, H/h/S setters on single- and multi-phase streams incl. assignment of the current value.',
          'Bound 1e-5 K x heat-capacity flow; entropy clauses skip (chemical, phase) pairs whose external heat-capacity integral fails the conditioning probe.'),
